@@ -52,7 +52,7 @@ func init() {
 			if tier == "thorough" {
 				hi = 10
 			}
-			return fmt.Sprintf("every input string of 0..%d bytes over the full byte alphabet (256^n each), by solver; long inputs of 120..135 bytes (three concrete fillers) with a fully symbolic window of 3 (quick) / 5 (thorough) bytes at the start, middle or end, crossing the 128-byte stack buffer; redirect guard: two all-redirect routers x every path of 2..4 (quick) / 2..5 (thorough) bytes x GET/POST/CONNECT (a redirect is issued only when the path equals the reference canonical form)", hi)
+			return fmt.Sprintf("every input string of 0..%d bytes over the full byte alphabet (256^n each), by solver; long inputs of 120..135 bytes (three concrete fillers) with a fully symbolic window of 3 (quick) / 5 (thorough) bytes at the start, middle or end, crossing the 128-byte stack buffer; redirect guard: two all-redirect routers x every path of 2..4 (quick) / 2..5 (thorough) bytes, and a router of accepted non-canonical static patterns (/n/./b/, /m/../d, /k/./e/) x every path of 2..7 bytes, x GET/POST/CONNECT (a redirect is issued only when the path equals the reference canonical form)", hi)
 		},
 		RequiredCovers: []string{"trailing-slash-in", "input longer than the stack buffer", "tsr redirected", "tsr neither ignored nor redirected: unmatched"},
 	}
@@ -107,9 +107,9 @@ func init() {
 			return js
 		},
 		Bounds: func(tier string) string {
-			return fmt.Sprintf("C10(a): every pattern string of 0..%d bytes over the full byte alphabet with default limits, 0..%d bytes with (maxParams,maxKeyBytes) in {(1,1),(2,3)}; C10(b): every accepted pattern of 1..%d bytes as the only route, with every substitution of 1..2 bytes per named parameter and 1..3 bytes per catch-all (full alphabet minus the delimiters); plus patterns assembled from 14 host forms x up to 3 (quick) / 4 (thorough) segments out of 18 segment forms (valid and malformed wildcards, mid-segment forms, literal braces), optional trailing slash, three limit configurations; hostnames of 0 or 3 full 63-byte labels followed by a label of 60..64 letters and a fully symbolic window of 0..2 (thorough 0..3) bytes (the 63-byte label and 255-byte total limits); each accepted assembled pattern (default limits) is also routed as the only route with fixed substitution values after a neighbour route extending its hostname or path was registered and deleted again", c10n(tier), c10n(tier)-1, c10n(tier))
+			return fmt.Sprintf("C10(a): every pattern string of 0..%d bytes over the full byte alphabet with default limits, 0..%d bytes with (maxParams,maxKeyBytes) in {(1,1),(2,3)}; C10(b): every accepted pattern of 1..%d bytes as the only route, with every substitution of 1..2 bytes per named parameter and 1..3 bytes per catch-all (full alphabet minus the delimiters); plus patterns assembled from 14 host forms x up to 3 (quick) / 4 (thorough) segments out of 18 segment forms (valid and malformed wildcards, mid-segment forms, literal braces), optional trailing slash, three limit configurations; hostnames of 0 or 3 full 63-byte labels followed by a label of 60..64 letters and a fully symbolic window of 0..2 (thorough 0..3) bytes (the 63-byte label and 255-byte total limits); each accepted assembled pattern (default limits) is also routed as the only route with fixed substitution values after it was updated in place and a neighbour route extending its hostname or path was registered and deleted again, through Lookup and through ServeHTTP on contexts that last served the slash-toggled request (ignore-trailing-slash on)", c10n(tier), c10n(tier)-1, c10n(tier))
 		},
-		RequiredCovers: []string{"accepted", "rejected", "accepted with hostname", "accepted with wildcard", "dont-care region", "round trip with wildcards", "round trip with hostname", "round trip after a neighbour came and went", "long hostname accepted", "long hostname rejected"},
+		RequiredCovers: []string{"accepted", "rejected", "accepted with hostname", "accepted with wildcard", "dont-care region", "round trip with wildcards", "round trip with hostname", "round trip after a neighbour came and went", "round trip served after slash-toggled requests", "long hostname accepted", "long hostname rejected"},
 		Assumptions: []string{
 			"grammar don't-care regions (neither acceptance nor rejection asserted): '_' in a host label, an all-numeric last label beside non-numeric ones, '-' directly before a host {param}",
 			"fmt.Errorf modelled (message opaque, %w operands kept); errors.Is modelled by walking Unwrap",
